@@ -8,6 +8,10 @@ TB = ("Trusted base: Coq 8.16.1 kernel (vm_compute for reflection; no native_com
       "'Closed under the global context'); extraction with ExtrOcamlBasic only + ocaml/driver.ml; the Rust harness and rustc. ")
 
 CLAIMS = {
+ "C13": dict(
+   text="Theorems about the hand models of core::number / number_64 / literal, for numerals of ANY length: on digits ds followed by a non-digit the result is exactly `dec ds` when below 2^32 (2^64), an Error otherwise, and nothing else (no wrap, no truncation, no saturation); leading zeros do not change the value; a literal takes exactly the announced number of bytes, lengths of 2^32 or more are an Error, fewer bytes than announced is Incomplete. Reflection over the grammar regenerated from /repo: no translated action builds or computes a number (the action language has no arithmetic or cast construct; a closure containing one becomes a native action and must be among the hand-modelled ones), every numeric leaf is 32 or 64 bits wide, and the natives that touch numbers return exactly the numbers given. Tie: translator + correspondence; the implementation-side oracle overwrites every numeric position (width known to the RFC-derived printer) with numerals beyond the range and requires a parse error or, inside a response code, the verbatim-text fallback.",
+   note=TB + "rs2coq in the trusted base. Modelled, not verified: u32::from_str/u64::from_str on a digit string (`dec ds < 2^bits`). Which width applies at which position is validated on the implementation side (printer knows the RFC widths), not proved against types.rs.",
+   technique="Coq proof (induction over digit strings) + vm_compute reflection on the regenerated grammar + boundary-numeral differential", ref="3 C13"),
  "C17": dict(
    text="Theorems over a hand model of BodyStructParser (BodyStruct.v), for all trees of any width and depth: the map built by the walker holds exactly (IMAP part specifier -> part) (soundness, completeness, no key inserted twice); every candidate search() may return leads to a part satisfying the predicate, and there is a candidate iff some part satisfies it; every index lies between 1 and the widest multipart (u32 counter cannot overflow below 2^32 children). Tied to the code by running the real BodyStructParser on ~35 000 generated (tree, predicate) cases and requiring its answer to be one of the model's candidates; an implementation-only oracle (the property's own definition of part specifiers) judges violations.",
    note=TB + "Modelled, not verified: HashMap (insert keeps last value per key; iteration order arbitrary). message/rfc822 parts are leaves for the walker, as in the code.",
